@@ -43,6 +43,12 @@ FOCUS = {
     "interrupted": dict(n_tasks=(2, 3), p_variable=0.85, p_zero=0.0, p_optional=0.15, n_workers=(1, 1), p_cumulative=0.0, p_select=0.0,
                         p_assign=1.0, p_dynamic=0.0, p_delayed=0.0, p_work=0.0, p_release=0.1, p_due=0.1, p_horizon=0.9, slack=(3, 8),
                         constraints=["ResourceInterrupted", "ResourceInterrupted", "ResourcePeriodicallyInterrupted"], n_constraints=(1, 2)),
+    # few workers, every task assigned, only resource constraints: boundaries of workload / unavailability /
+    # distance intervals against the busy intervals of a worker
+    "resource-rules": dict(n_tasks=(2, 3), p_variable=0.3, p_zero=0.05, p_optional=0.2, n_workers=(1, 2), p_cumulative=0.1, p_select=0.25,
+                           p_assign=1.0, p_dynamic=0.05, p_delayed=0.05, p_work=0.0, p_release=0.1, p_due=0.0, p_horizon=0.9, slack=(1, 5),
+                           constraints=["WorkLoad", "WorkLoad", "ResourceUnavailable", "ResourcePeriodicallyUnavailable", "ResourceTasksDistance",
+                                        "ResourceNonDelay"], n_constraints=(1, 2)),
 }
 
 TASK_CONSTRAINT_KINDS = ["TaskStartAt", "TaskStartAfter", "TaskEndAt", "TaskEndBefore", "TaskPrecedence", "TasksStartSynced",
